@@ -38,13 +38,21 @@ type state struct {
 }
 
 func (s *state) fullCheck(when string) {
+	check := func(r hist.Read) {
+		if d := s.h.CheckRead(r); d != "" {
+			o, u, lv := s.h.Layout()
+			s.h.Fail("%s: %q differs from the contents before the reorganisation: %s [files ordered=%d unordered=%d maxlevel=%d]", when, r.SQL(), d, o, u, lv)
+		}
+	}
 	for _, m := range msts {
 		for _, desc := range []bool{false, true} {
-			r := hist.Read{Mst: m, NoTime: true, Grouped: true, Desc: desc}
-			if d := s.h.CheckRead(r); d != "" {
-				o, u, lv := s.h.Layout()
-				s.h.Fail("%s: %q differs from the contents before the reorganisation: %s [files ordered=%d unordered=%d maxlevel=%d]", when, r.SQL(), d, o, u, lv)
-			}
+			check(hist.Read{Mst: m, NoTime: true, Grouped: true, Desc: desc})
+		}
+		// time-bounded answers too: a rewritten file carries its own time range (and per-chunk / per-segment ranges) that
+		// queries prune by - half-open windows from fixed cut points (no random draws here: replays re-execute this)
+		for _, k := range []int{3, 7, 12, 20, 30, 45, 64, 70} {
+			check(hist.Read{Mst: m, TMin: hist.TS(k), TMax: hist.TS(79) + 5e9, Grouped: true})
+			check(hist.Read{Mst: m, TMin: hist.TS(0) - 5e9, TMax: hist.TS(k) - 1, Grouped: true, Desc: k%2 == 0})
 		}
 	}
 }
